@@ -1,6 +1,7 @@
 """Generator of valid CID structures, meaning-preserving rewrites and single structural defects.
 The oracle is the structure itself (CIDs are rendered, never parsed).  Never imports cutplace."""
 import itertools
+import keyword
 
 # name -> cells after the marker: name, example, empty, length, type, rule   (delimited/excel/ods)
 FIELDS = {
@@ -153,6 +154,10 @@ def defects(base):
         for name, value in (("empty-field-name", ""), ("blank-field-name", "  "), ("digit-led-field-name", "1abc"), ("blank-in-field-name", "a b"), ("non-ascii-field-name", "näme"),
                             ("keyword-field-name", "for"), ("underscore-led-field-name", "_a"), ("hyphen-in-field-name", "a-b")):
             yield name, replaced(position, with_cell(1, value)), position + 1
+        if position == field_rows[0]:
+            # every Python keyword, also the capitalised ones (False, None, True)
+            for word in keyword.kwlist:
+                yield "keyword-field-name:" + word, replaced(position, with_cell(1, word)), position + 1
         yield "bad-empty-mark", replaced(position, with_cell(3, "Y")), position + 1
         yield "unknown-field-type", replaced(position, with_cell(5, "Nope")), position + 1
         yield "malformed-field-type", replaced(position, with_cell(5, "Te-xt")), position + 1
@@ -202,3 +207,15 @@ def defects(base):
             yield "unknown-row-marker", replaced(position, ["x"] + rows[position][1:]), position + 1
             break
     yield "unknown-row-marker-comment", inserted(len(rows), ["note", "text"]), len(rows) + 1
+
+
+SOUND_NAMES = ["Class", "IMPORT", "If", "none", "true", "Lambda", "class_", "for1", "FALSE", "a", "Z9_", "x" * 40]
+
+
+def extra_fields(base):
+    """Yield (name, rows, expected field names): one more Text field whose sound name merely resembles a keyword."""
+    rows = base["rows"]
+    last_field = max(i for i, k in enumerate(kinds(rows)) if k == "f")
+    for name in SOUND_NAMES:
+        row = ["F", name, "", "X", "3" if base["fmt"] == "fixed" else "", "Text", ""]
+        yield "sound-field-name:" + name, rows[: last_field + 1] + [row] + rows[last_field + 1:], base["fields"] + [name]
